@@ -43,7 +43,11 @@ void generate(Rng& r, Workload& w, int tier) {
         if (rd + 1 < rounds) w.ops.push_back({OP_ROUND});
     }
     if (scen) {
-        if (r.chance(1, 2) && !w.ops.empty()) w.ops.push_back({OP_TERM_JOB, int64_t(r.below(8))});
+        if (r.chance(1, 2) && !w.ops.empty()) {
+            // one job terminates the pool -- or two or three of them, possibly running at the same time
+            int nterm = r.chance(1, 3) ? int(r.range(2, 3)) : 1;
+            for (int t = 0; t < nterm; ++t) w.ops.push_back({OP_TERM_JOB, int64_t(r.below(8))});
+        }
         else if (outside) w.ops.push_back({OP_TERM_OUT, r.range(1, outside)});
         // else: the controller terminates itself before waiting
     }
